@@ -312,6 +312,39 @@ func receiverAppends(c *core.Ctx, p *load.Prog) {
 			continue
 		}
 		clipped := map[string]token.Pos{}
+		clipStmt := map[string]ast.Stmt{}
+		// dominates: stmt a is a direct statement of a block that (transitively)
+		// contains b, and comes before the statement containing b
+		dominates := func(a ast.Stmt, b ast.Node) bool {
+			found := false
+			ast.Inspect(fd.Body, func(n ast.Node) bool {
+				var list []ast.Stmt
+				switch x := n.(type) {
+				case *ast.BlockStmt:
+					list = x.List
+				case *ast.CaseClause:
+					list = x.Body
+				default:
+					return true
+				}
+				ai := -1
+				for i, st := range list {
+					if st == a {
+						ai = i
+					}
+				}
+				if ai < 0 {
+					return true
+				}
+				for _, st := range list[ai+1:] {
+					if containsNode(st, b) {
+						found = true
+					}
+				}
+				return true
+			})
+			return found
+		}
 		ast.Inspect(fd.Body, func(m ast.Node) bool {
 			as, ok := m.(*ast.AssignStmt)
 			if !ok || len(as.Lhs) != 1 || len(as.Rhs) != 1 {
@@ -337,24 +370,27 @@ func receiverAppends(c *core.Ctx, p *load.Prog) {
 			// a clip: f.X = f.X[:len(f.X):len(f.X)]  or slices.Clip(f.X) or a fresh copy
 			if se, ok := rhs.(*ast.SliceExpr); ok && se.Slice3 && wire.Canon(se.X) == field && wire.Canon(se.High) == wire.Canon(se.Max) {
 				clipped[field] = as.Pos()
+				clipStmt[field] = as
 				return true
 			}
 			if call, ok := rhs.(*ast.CallExpr); ok {
 				cf := wire.Canon(call.Fun)
 				if cf == "slices.Clip" || cf == "slices.Clone" {
 					clipped[field] = as.Pos()
+					clipStmt[field] = as
 					return true
 				}
 				if cf == "append" && len(call.Args) >= 1 {
 					first := wire.Canon(call.Args[0])
 					if first == field {
 						n++
-						pos, isClipped := clipped[field]
-						ok := isClipped && pos < as.Pos()
+						_, isClipped := clipped[field]
+						ok := isClipped && clipStmt[field] != nil && dominates(clipStmt[field], as)
 						c.Check("R3", fmt.Sprintf("%s appends to %s only after clipping its capacity", load.FuncName(fn), field), p.Pos(as.Pos()), ok,
 							"append onto a slice of a by-value receiver/parameter writes into the caller's backing array when it has spare capacity: concurrent or repeated calls sharing one File see each other's elements")
 					} else if strings.HasPrefix(first, "[]") || first == "nil" {
 						clipped[field] = as.Pos() // fresh copy
+						clipStmt[field] = as
 					}
 				}
 			}
